@@ -587,7 +587,7 @@ class Evaluator:
             except (IndexError, KeyError, TypeError) as ex:
                 raise _Raise(type(ex).__name__)
         if isinstance(e, ast.Attribute):
-            if isinstance(e.value, ast.Name) and self.cls and e.value.id == self.cls and e.value.id not in env:
+            if isinstance(e.value, ast.Name) and self.cls and e.value.id == self.cls and e.value.id not in env and e.value.id not in self.intrinsics:
                 mem = self._class_member(e.attr)
                 if isinstance(mem, ast.Assign):
                     return self.expr(mem.value, {})
